@@ -423,6 +423,10 @@ func (e *Engine) makeReplay(t *testing.T, seed uint64, rec []uint32, f simrt.Fai
 		fa, ok = hasOracle(a, f.Oracle)
 	}
 	if !ok || a.LogHash() != b.LogHash() {
+		if d := os.Getenv("VERIF_DEBUG_DIR"); d != "" {
+			_ = os.WriteFile(d+"/nondet-a.log", []byte(strings.Join(a.Log, "\n")), 0o644)
+			_ = os.WriteFile(d+"/nondet-b.log", []byte(strings.Join(b.Log, "\n")), 0o644)
+		}
 		sum.Trouble = append(sum.Trouble, fmt.Sprintf("seed %d: failure %s does not replay deterministically (hashes %x %x, reproduced=%v)", seed, f.Oracle, a.LogHash(), b.LogHash(), ok))
 		return nil
 	}
